@@ -77,12 +77,9 @@ func (c *CppCommentState) NextToken(
 		str := c.GetSingleLineComment(scanner)
 		return tokenizers.NewToken(tokenizers.Comment, "//"+str, line, column)
 	} else {
-		if !utilities.CharValidator.IsEof(secondSymbol) {
-			scanner.Unread()
-		}
-		if !utilities.CharValidator.IsEof(firstSymbol) {
-			scanner.Unread()
-		}
+		// Return both symbols (the second one can be the end of stream)
+		scanner.Unread()
+		scanner.Unread()
 		return tokenizer.SymbolState().NextToken(scanner, tokenizer)
 	}
 }
